@@ -225,6 +225,10 @@ def _short(g):
 
 def _constant_args(c):
     """pretty_call_alt(ctx, constructor, args=(..., )) -- only constants are printed"""
+    if call_name(c) not in ('pretty_call', 'pretty_call_alt'):
+        # a direct print entry: constant only when the value printed is a literal
+        v = c.args[0] if c.args else next((k.value for k in c.keywords if k.arg == 'value'), None)
+        return v is not None and all(isinstance(x, (ast.Constant, ast.Tuple, ast.List, ast.Load)) for x in ast.walk(v))
     for k in c.keywords:
         if k.arg in ('args', 'kwargs'):
             if not all(isinstance(x, (ast.Constant, ast.Tuple, ast.List, ast.Load)) for x in ast.walk(k.value)):
